@@ -580,3 +580,49 @@ Inductive presentation_equiv : xdoc -> xdoc -> Prop :=
 (* an XML element has no two attributes of one name *)
 Fixpoint nodup_sb (l : list string) : bool := match l with [] => true | x :: r => negb (memb x r) && nodup_sb r end.
 Definition attrs_nodupb (d : xdoc) : bool := forallb (fun e => nodup_sb (map fst (x_attrs e))) d.
+
+(* ---- C05: boolean premises of load_xmi_is_denotation ----
+   What a TypeSystem guarantees about the schema it answers with (C10/C11), and what an XML parser guarantees about an
+   element, stated as data so that the harness can count the cases that satisfy them. *)
+Definition fkind_eqb (a b : fkind) : bool :=
+  match a, b with
+  | FPrim PInt, FPrim PInt | FPrim PFlt, FPrim PFlt | FPrim PBool, FPrim PBool | FPrim PStr, FPrim PStr => true
+  | FStrColl, FStrColl | FBytes, FBytes | FIdColl, FIdColl | FRef, FRef => true
+  | FTokColl PInt, FTokColl PInt | FTokColl PFlt, FTokColl PFlt | FTokColl PBool, FTokColl PBool
+  | FTokColl PStr, FTokColl PStr => true
+  | _, _ => false
+  end.
+Definition reserved_free (n : string) : bool := negb (String.eqb n "self_" || String.eqb n "type_").
+Definition ti_okb (s : schema) (ti : tinfo) : bool :=
+  let anc := ti_anc ti in
+  nodup_sb (map fd_name (ti_feats ti))
+  && forallb (fun fd => String.eqb (fd_name fd) (pyname (fd_xname fd)) && reserved_free (fd_xname fd)
+                        && negb (String.eqb (fd_xname fd) A_ID)) (ti_feats ti)
+  && (negb (memb T_ANNOTATION_BASE anc) ||
+      forallb (fun fd => if String.eqb (fd_name fd) "sofa" then fkind_eqb (fkind_of s fd) FRef
+                         else if String.eqb (fd_name fd) "begin" || String.eqb (fd_name fd) "end"
+                              then fkind_eqb (fkind_of s fd) (FPrim PInt) else true) (ti_feats ti))
+  && (negb (memb T_ANNOTATION anc) || memb T_ANNOTATION_BASE anc)
+  && Bool.eqb (memb T_STRING_ARRAY anc) (String.eqb (ti_name ti) T_STRING_ARRAY)
+  && (negb (is_array_name (ti_name ti)) ||
+      match ti_feats ti with
+      | [fd] => String.eqb (fd_name fd) "elements" && String.eqb (fd_xname fd) "elements" && String.eqb (fd_range fd) T_TOP
+      | _ => false
+      end).
+Definition schema_okb (s : schema) : bool :=
+  forallb (ti_okb s) s && negb (is_primitive s T_TOP)
+  && match sch_find s T_NULL with Some ti => match ti_feats ti with [] => true | _ => false end | None => true end.
+(* an element: attribute names distinct (also after the python-name remapping), no name that the remapping would hit,
+   child elements only where the format puts them: under string array / string list features and under StringArray *)
+Definition kid_okb (s : schema) (ti : tinfo) (k : string) : bool :=
+  negb (String.eqb k A_ID) && reserved_free k &&
+  (if is_array_name (ti_name ti) then String.eqb (ti_name ti) T_STRING_ARRAY && String.eqb k "elements"
+   else existsb (fun fd => String.eqb (fd_xname fd) k && fkind_eqb (fkind_of s fd) FStrColl) (ti_feats ti)).
+Definition elem_okb (s : schema) (e : xelem) : bool :=
+  match sch_find s (reader_tname (x_ns e) (x_tag e)) with
+  | None => false
+  | Some ti =>
+    nodup_sb (map (fun kv => pyname (fst kv)) (x_attrs e))
+    && forallb (fun kv => reserved_free (fst kv)) (x_attrs e)
+    && forallb (fun kv => kid_okb s ti (fst kv)) (x_kids e)
+  end.
